@@ -28,7 +28,7 @@ Proof. exact output_root_is_output_md. Qed.
 Print Assumptions C03_output.
 
 Theorem C03_walk : forall c cb input rows t st',
-  c_dry c = false -> is_default (c_enc c) = true ->
+  c_dry c = false ->
   scan_lines input = (rows, ScanEOF) -> parses p0 rows (forest_items [t]) st' -> nodup_sib t ->
   walk_md c cb input = walk_root (c_bf c) cb t.
 Proof. exact walk_root_is_walk_md. Qed.
@@ -52,7 +52,7 @@ Print Assumptions C03_verify.
 (* THE EQUIVALENCE AT FULL STRENGTH: for ANY spelling (Spec/Spelling.v) of an Add-built tree *)
 Theorem C03_equiv : forall sp t, spells sp [t] -> nodup_sib t ->
   (forall c, c_dry c = false -> output_md c (bytes_of sp) = output_root c t) /\
-  (forall c cb, c_dry c = false -> is_default (c_enc c) = true -> walk_md c cb (bytes_of sp) = walk_root (c_bf c) cb t) /\
+  (forall c cb, c_dry c = false -> walk_md c cb (bytes_of sp) = walk_root (c_bf c) cb t) /\
   (forall w h c d, root_of w (Some h) = Ok t -> pstep w (PMdMkdir c d (bytes_of sp)) = pstep w (PMkdir (Some h) c d)) /\
   (forall w h c s d, root_of w (Some h) = Ok t -> pstep w (PMdVerify c s d (bytes_of sp)) = pstep w (PVerify (Some h) c s d)).
 Proof. exact root_equals_markdown. Qed.
